@@ -1,6 +1,7 @@
 package routesim
 
 import (
+	"embed"
 	"encoding/json"
 	"fmt"
 	"hash/fnv"
@@ -31,6 +32,9 @@ func mineByName(name string) bool {
 // TestFault serves C04: for base scenarios, break each stream right after each of its
 // boundary events (both fault sides), then let everything reconnect; the C01 oracle runs
 // across incarnations.
+//go:embed pinned/*.json
+var pinnedFS embed.FS
+
 func TestFault(t *testing.T) {
 	out := rec.Default()
 	bases, doubles := 6, 0
@@ -41,6 +45,37 @@ func TestFault(t *testing.T) {
 	seed := rec.Seed()
 	resume := resumeState{after: rec.ResumeAfter()}
 	samples := 0
+	// pinned scenarios: witnesses of recorded findings that the generated quick tier does not reach (double
+	// faults), replayed from their descriptors so that every run shows whether the finding is still there
+	if ents, err := pinnedFS.ReadDir("pinned"); err == nil {
+		for _, e := range ents {
+			b, err := pinnedFS.ReadFile("pinned/" + e.Name())
+			if err != nil {
+				continue
+			}
+			sc := &Scenario{}
+			if json.Unmarshal(b, sc) != nil {
+				continue
+			}
+			name := "pinned/" + strings.TrimSuffix(e.Name(), ".json")
+			if !mineByName(name) || !resume.want(name) {
+				continue
+			}
+			sc.Name = name
+			out.Begin(name, sc)
+			o := runInBubble(t, sc)
+			if o == nil {
+				out.End(rec.Line{Case: name, Verdict: rec.Inconclusive, Why: "no outcome"})
+				continue
+			}
+			o.Counts["pinned_scenarios_run"] = 1
+			l := rec.Line{Case: name, Viol: retag(o.Viol), Counts: o.Counts, Class: o.Sig}
+			for i := range l.Viol {
+				l.Viol[i].Witness = map[string]any{"detail": l.Viol[i].Witness, "events": lastEvents(o.Events, l.Viol[i].Witness, 120)}
+			}
+			out.End(l)
+		}
+	}
 	for b := 0; b < bases; b++ {
 		base := GenFaultBase(rec.Mix(seed, fmt.Sprintf("faultbase/%d", b)), b)
 		base.Name = fmt.Sprintf("base/%d", b)
